@@ -100,6 +100,47 @@ pub fn listed_ssts(root: &Path) -> Result<BTreeSet<String>, String> {
     Ok(state_after(&parse_fragment(&live)?).0)
 }
 
+/// As `listed_ssts`, for a directory image left by a crash: parsing stops at the first line that is
+/// cut or damaged (a torn tail), and an edit without its separator does not count.  None: no MANIFEST.
+pub fn listed_ssts_tolerant(root: &Path) -> Option<BTreeSet<String>> {
+    let live = root.join("mani").join("MANIFEST");
+    let bytes = std::fs::read(&live).ok()?;
+    let text = String::from_utf8_lossy(&bytes);
+    let mut txns = vec![];
+    let mut cur = Txn::default();
+    for line in text.split('\n') {
+        if line.is_empty() {
+            continue;
+        }
+        if line == "--------" {
+            txns.push(std::mem::take(&mut cur));
+            continue;
+        }
+        if line.len() < 9 || !line.is_char_boundary(8) {
+            break;
+        }
+        let Ok(want) = u32::from_str_radix(&line[..8], 16) else { break };
+        if crc32c::crc32c(&line.as_bytes()[8..]) != want {
+            break;
+        }
+        let mut chars = line[8..].chars();
+        let action = chars.next().unwrap();
+        let payload = chars.as_str().to_string();
+        match action {
+            '+' => {
+                cur.added.insert(payload);
+            }
+            '-' => {
+                cur.removed.insert(payload);
+            }
+            c => {
+                cur.info.insert(c, payload);
+            }
+        }
+    }
+    Some(state_after(&txns).0)
+}
+
 fn digest(s: &str, what: &str) -> Result<Setsum, (String, String)> {
     Setsum::from_hexdigest(s).ok_or_else(|| ("balance:bad-digest".to_string(), format!("{what} is not a digest: {s:?}")))
 }
